@@ -5,6 +5,9 @@
 extern fgs_t *g_top;
 extern unsigned long g_r, g_lab, g_bp;
 extern int gr_temp, gr_use;
+extern unsigned long g_cfree;
+extern int gb_loc, gb_op, gb_lab, gb_p1, gb_p2, gb_tgt;
+#define PN(q) ((unsigned long)(q))
 extern long gr_name;
 /* ghost handles, assigned by the harness */
 
